@@ -247,7 +247,10 @@ var estOps = []string{
 // Reader-triggered redials (connection killed by the serving side, graceful close of the serving
 // session), enumeration, Health, ID changes, Swap access, Close and the serving side's calls and
 // pushes over the client's sessions are not affected and stay in.
-const estRedialClientTraffic = false
+// (decided per process: the clause is left out only while the finding is listed as known)
+var estRedialClientTraffic = !vt.IsKnown(estRedialSiteKey)
+
+const estRedialSiteKey = "C14:race-site:redial-resets-socket-in-use"
 
 func estWithout(l []string, drop ...string) []string {
 	var r []string
@@ -612,7 +615,7 @@ func runEstCase(c estCase) estResult {
 }
 
 func TestC14Establish(t *testing.T) {
-	rec := vt.NewRec(t, "C14", "establish", "session establishment inside the concurrent program: a client peer with generated redial configuration (RedialTimes 0 / 1 / 3 / unlimited, RedialInterval 1-3 ms; protocol default / raw / json / pb); 1-4 goroutines keep establishing sessions (peer.Dial over loopback TCP to a harness-owned listener in front of a serving peer, or ServeConn over the in-memory transport), 2-10 sessions each, and then leave / use / close them; the listener treats every accepted connection by a generated plan (keep, kill at once, kill when served, kill 1-3 accepts later; bounded kill budget), so fresh sessions run into disconnect and redial handling at once; meanwhile 2-8 goroutines loop over 1-5 documented-safe operations on whatever sessions the peers currently list (RangeSession with Health / ID / Swap access, GetSession, CountSession, SetID, Swap store/load/range, Health, CloseNotify, Call and Push in both directions, Close on either side); oracle: the Go race detector (reports parsed by the driver, both accesses in framework code); non-trivial = redial enabled and an enumerating goroutine met a dialed session whose Dial had not returned yet or had returned less than 300us before (measured through a registry filled by the dial/accept hook); distinct by case")
+	rec := vt.NewRec(t, "C14", "establish", "session establishment inside the concurrent program: a client peer with generated redial configuration (RedialTimes 0 / 1 / 3 / unlimited, RedialInterval 1-3 ms; protocol default / raw / json / pb); 1-4 goroutines keep establishing sessions (peer.Dial over loopback TCP to a harness-owned listener in front of a serving peer, or ServeConn over the in-memory transport), 2-10 sessions each, and then leave / use / close them; the listener treats every accepted connection by a generated plan (keep, kill at once, kill when served, kill 1-3 accepts later; bounded kill budget), so fresh sessions run into disconnect and redial handling at once; meanwhile 2-8 goroutines loop over 1-5 documented-safe operations on whatever sessions the peers currently list (RangeSession with Health / ID / Swap access, GetSession, CountSession, SetID, Swap store/load/range, Health, CloseNotify, Call and Push from the serving side over the sessions it lists, Call and Push from the client side only in cases without redial (with redial they run into separately reported defects of the write-path redial), Close on either side); oracle: the Go race detector (reports parsed by the driver, both accesses in framework code); non-trivial = redial enabled and an enumerating goroutine met a dialed session whose Dial had not returned yet or had returned less than 300us before (measured through a registry filled by the dial/accept hook); distinct by case")
 	rapid.Check(t, func(t *rapid.T) {
 		c := genEstCase(t)
 		r := runEstCase(c)
